@@ -1,3 +1,4 @@
+import Tengo.Props.VM
 import Tengo.Proofs.F0Stmts
 import Tengo.Proofs.F1Stmts
 import Tengo.Model.F0Compile
